@@ -22,9 +22,15 @@ exact type; then pairs of kinds across the literal / non-literal boundary.  Then
 (exportscope.family): templates x contexts x name kinds for names bound by a comprehension / lambda / nested def /
 generator expression / walrus in one place of a formula and global (reference, cells, child space, ItemSpace
 parameter, built-in) in another - Python's own scoping is the oracle.
+Then the FAILURE family (exportfail.family): one model per way a formula can raise (eight kinds), with elements of
+0 / 1 / 2 parameters, cached and uncached, that fail for some arguments, callers that handle the failure with
+try/except, and every element read again after it failed - inside one query and across queries, in static, derived
+and parametrised spaces.
 Oracle (implementation only): wherever the model yields a value the package must yield the
 same value; the package must import; it must not load modelx; `export` must not raise.
-Queries on which the model itself raises are not compared.
+Queries on which the model itself raises are not compared - except in models that ask for it (`"compare_errors"`
+in the description: the failure family and its corpus witness), where the package must raise the same exception
+class that modelx reports inside its FormulaError: per query, the same value or the same exception class.
 
 Supplement (Lean, Props/C15.lean): the two decision procedures of the exporter that do not
 depend on formula text.  Correspondence for them:
@@ -37,6 +43,9 @@ depend on formula text.  Correspondence for them:
   * `rcp`: for every reference to a cells / space of every space, the form of its statement in the generated
     `_mx_copy_refs` (plain copy of the base's object / the item's counterpart if inside the base root) must be what
     `MxModel.Export.refCopyAction` selects for the reference's mode over the chain extracted from `ref_copies`;
+  * `cm`: every cache method of every generated class (a method `x` next to `_f_x`), read back with
+    tables.cache_method_tokens, must be the program extracted from the template in exporter.py - the program
+    `failed_evaluation_stores_nothing` / `stored_value_returned_thereafter` / `exported_cache_reads_eq_spec` are about;
   * `rsv`: for probe cells `lambda: <name>` whose name is an ItemSpace parameter named like a built-in, reached with
     some / all / none of the parametrised levels called: member, built-in or nothing on both sides as
     `MxModel.Export.exportedResolveAt` / `mxResolveAt` say (static access: the class-level `k = k` lines);
@@ -63,6 +72,7 @@ from .. import export_runner as R
 from .. import exportvals as V
 from .. import exportscope as S
 from .. import exportrefs as XR
+from .. import exportfail as XF
 from ..impl import mx, close_all, quiet, err_kind
 
 
@@ -528,6 +538,51 @@ def occurrence_lines(desc, m, pkg_dir, stats, skip_spaces=None):
     return out
 
 
+# ----------------------------------------------------------------------------- the cache-method correspondence
+
+_TEMPLATE_CACHE = {}
+
+
+def template_cache_programs():
+    """the templates of exporter.py as programs (tables.cache_method_tokens), read once per process"""
+    if not _TEMPLATE_CACHE:
+        from .. import tables
+        try:
+            _TEMPLATE_CACHE.update(tables._export_cache_methods())
+        except Exception as e:      # noqa: BLE001 - reported by the table extraction itself
+            _TEMPLATE_CACHE.update({"exportCacheNoParam": None, "exportCacheParam": None, "error": repr(e)})
+    return _TEMPLATE_CACHE
+
+
+def cache_method_lines(desc, pkg_dir):
+    """-> [(which template, tokens read off the generated method | 'unreadable: ..', where)] for every cache method
+    (a method `x` next to a method `_f_x`) of every generated space class"""
+    from .. import tables
+    out = []
+    for path, _sp in W.iter_spaces(desc):
+        try:
+            methods = exported_method_nodes(pkg_dir, path)
+        except Exception:       # noqa: BLE001
+            continue
+        for name, fn in methods.items():
+            if name.startswith("_f_") or ("_f_" + name) not in methods:
+                continue
+            has_params = len(fn.args.args) + len(fn.args.kwonlyargs) > 1 or fn.args.vararg or fn.args.kwarg
+            which = "exportCacheParam" if has_params else "exportCacheNoParam"
+            key = None
+            try:
+                if has_params:
+                    test = fn.body[0].test
+                    if isinstance(test, ast.UnaryOp):
+                        test = test.operand
+                    key = ast.unparse(test.left)
+                toks = tables.cache_method_tokens(fn, name, key)
+            except Exception as e:      # noqa: BLE001
+                toks = "unreadable: %s" % (e,)
+            out.append((which, toks, "%s.%s" % (".".join(path), name)))
+    return out
+
+
 # ----------------------------------------------------------------------------- the reference-value correspondence
 
 def _emit_class(node):
@@ -789,6 +844,16 @@ def _declares(desc, path, name):
     return rec(path, set())
 
 
+def model_error_class(exp):
+    """`Formula:<class name>` (eval_model) -> the bare class name of what the formula raised; None when the model's
+    failure is not a formula's (wrong number of arguments ...) or is modelx's own (`modelx.core.errors.X`)"""
+    k = exp.get("err", "")
+    if not k.startswith("Formula:"):
+        return None
+    k = k[len("Formula:"):]
+    return k if k.isidentifier() else None
+
+
 def res_of(r):
     if "ok" in r and type(r["ok"]) is int:
         return "val %d" % r["ok"]
@@ -820,6 +885,7 @@ class Case:
         self.rsv = []
         self.rcp = []
         self.refval = []
+        self.cm = []
 
 
 def prepare(case, rng, tmp, stats, fixed_queries=None):
@@ -869,6 +935,10 @@ def prepare(case, rng, tmp, stats, fixed_queries=None):
             case.refval = refval_lines(desc, m, os.path.join(tmp, case.pkg))
         except Exception as e:      # noqa: BLE001
             stats["refval_extraction_failed"] = stats.get("refval_extraction_failed", 0) + 1
+        try:
+            case.cm = cache_method_lines(desc, os.path.join(tmp, case.pkg))
+        except Exception as e:      # noqa: BLE001
+            stats["cm_extraction_failed"] = stats.get("cm_extraction_failed", 0) + 1
         for qi, q in enumerate(case.queries):
             if "_levels" not in q and not (q.get("kw") or q.get("args")):
                 try:
@@ -917,7 +987,16 @@ def trigger_key(case, q):
 
 def compare(case, rec, out, stats, samples):
     desc = case.desc
-    hist = lambda q: {"desc": desc, "queries": [public(q)] if q else []}     # noqa: E731
+    def hist(q, upto=False):
+        """the failing query alone - or, where what an element returns depends on the reads before it (the failure
+        family: the caches of the package), the shortest sequence of earlier queries followed by it that still
+        matters: all reads before it in the same place"""
+        if q is None:
+            return {"desc": desc, "queries": []}
+        if not (upto or desc.get("compare_errors")):
+            return {"desc": desc, "queries": [public(q)]}
+        k = next(i for i, x in enumerate(case.queries) if x is q)
+        return {"desc": desc, "queries": [public(x) for x in case.queries[:k] if x["sp"] == q["sp"]] + [public(q)]}
     if case.problem:
         key = trigger_key(case, None)
         out.fail("C15: " + case.problem[0] + (" [%s]" % key if key else ""), hist(None),
@@ -935,6 +1014,28 @@ def compare(case, rec, out, stats, samples):
         if "err" in exp:
             stats["model_raises"] += 1
             stats["model_raises:" + exp["err"]] = stats.get("model_raises:" + exp["err"], 0) + 1
+            if not desc.get("compare_errors"):
+                continue
+            # the failure family: the same exception class on both sides (modelx wraps what the formula raised
+            # into a FormulaError whose message names the class)
+            cls = model_error_class(exp)
+            if cls is None:
+                stats["model_error_not_a_formula_failure"] = stats.get("model_error_not_a_formula_failure", 0) + 1
+                continue
+            stats["compared_errors"] = stats.get("compared_errors", 0) + 1
+            if q.get("_repeat"):
+                stats["compared_errors_repeat"] = stats.get("compared_errors_repeat", 0) + 1
+            if got.get("cls") == cls:
+                continue
+            key = trigger_key(case, q)
+            if "err" in got:
+                what = "C15: exported package raises %s where the model's formula raises %s" % (got.get("cls"), cls)
+            else:
+                what = "C15: exported package returns a value where the model's formula raises %s" % cls
+            if key:
+                what += " [" + key + "]"
+            out.fail(what, hist(q, upto=True), detail={"model": exp, "exported": got, "cells_source": _find_src(
+                desc, q.get("_path") or [st["attr"] for st in q["sp"] if "attr" in st], q["cells"])}, key=key)
             continue
         if isinstance(exp["ok"], dict) and "other" in exp["ok"]:
             stats["model_value_not_canonical"] += 1
@@ -978,6 +1079,13 @@ def run_batch(ctx, cases, out, stats, samples, rngs=None, fixed=None):
         for case in live:
             rec = recs.get(case.idx, {"import": "ok", "results": []})
             compare(case, rec, out, stats, samples)
+            progs = template_cache_programs()
+            for which, toks, where in case.cm:
+                # the generated method is the template the theorems of Props/C15.lean section 6 speak about
+                stats["cm_methods"] = stats.get("cm_methods", 0) + 1
+                if progs.get(which) is not None and toks != progs[which]:
+                    out.disagree({"desc": case.desc, "line": "cm " + which, "where": where}, 0, toks, progs[which],
+                                 layer="export")
             for line, obs, where in case.rw:
                 driver_lines.append(line)
                 driver_meta.append(("rw", case, obs, where))
@@ -1174,6 +1282,7 @@ def slice_desc(desc, q):
                 "cells": [c for c in sp.get("cells", []) if c["name"] in idents],
                 "spaces": [sp_out(pth + (c["name"],), c) for c in sp.get("spaces", []) if pth + (c["name"],) in keep]}
     return {"name": desc["name"], "profile": desc.get("profile"),
+            **({"compare_errors": True} if desc.get("compare_errors") else {}),
             "grefs": [r for r in desc.get("grefs", []) if r["name"] in idents],
             "spaces": [sp_out((sp["name"],), sp) for sp in desc["spaces"] if (sp["name"],) in keep],
             "sigs": {k: v for k, v in desc.get("sigs", {}).items() if k in idents}}
@@ -1191,14 +1300,21 @@ def shrink_failures(ctx, out, limit=5):
         if not h.get("queries"):
             continue
         try:
-            small = slice_desc(h["desc"], h["queries"][0])
+            # the failing query is the last one (the earlier ones are the reads before it, where they matter)
+            small = slice_desc(h["desc"], h["queries"][-1])
             if len(json.dumps(small)) >= len(json.dumps(h["desc"])):
                 continue
-            probe = core.Outcome()
-            run_batch(ctx, [Case(0, dict(small, name="R0"), "shrink")], probe, new_stats(), [], fixed=[h["queries"]])
-            if any(g["what"] == f["what"] for g in probe.failures):
-                f["history"] = {"desc": dict(small, name=h["desc"]["name"]), "queries": h["queries"]}
-                f["detail"] = dict(f["detail"] or {}, shrunk_from_bytes=len(json.dumps(h["desc"])))
+            kept = set(c["name"] for _p, sp in W.iter_spaces(small) for c in sp.get("cells", []))
+            qsets = [h["queries"][-1:], [x for x in h["queries"] if x["cells"] in kept], h["queries"]]
+            for qs in qsets:
+                if len(qs) > len(h["queries"]):
+                    continue
+                probe = core.Outcome()
+                run_batch(ctx, [Case(0, dict(small, name="R0"), "shrink")], probe, new_stats(), [], fixed=[qs])
+                if any(g["what"] == f["what"] for g in probe.failures):
+                    f["history"] = {"desc": dict(small, name=h["desc"]["name"]), "queries": qs}
+                    f["detail"] = dict(f["detail"] or {}, shrunk_from_bytes=len(json.dumps(h["desc"])))
+                    break
         except Exception:       # noqa: BLE001 - the unshrunk input is reported
             continue
 
@@ -1259,6 +1375,14 @@ def run(ctx, out):
             d = dict(d, name="R%d" % idx)
             tasks.append(("objrefs", (ctx, [Case(idx, d, "objrefs/" + label)], None, [qs])))
             idx += 1
+    # the failure family: formulas that raise, handlers, repeated reads (all kinds on every run)
+    fail_queries = 0
+    if not os.environ.get("VERIF_C15_NO_FAIL"):
+        for label, d, qs in XF.family(ctx.rng("fail")):
+            d = dict(d, name="F%d" % idx)
+            fail_queries += len(qs)
+            tasks.append(("failures", (ctx, [Case(idx, d, label)], None, [qs])))
+            idx += 1
     programs = set()
     skipped_trigger = 0
     done = 0
@@ -1317,6 +1441,10 @@ def run(ctx, out):
         "objref_family": {"values_compared": per_phase.get("objrefs", {}).get("compared", 0),
                           "model_raises_not_compared": per_phase.get("objrefs", {}).get("model_raises", 0),
                           "targets": len(XR.TARGETS), "modes": list(XR.MODES)},
+        "failure_family": {"kinds": XF.KIND_IDS, "queries": fail_queries,
+                           "values_compared": per_phase.get("failures", {}).get("compared", 0),
+                           "errors_compared": stats.get("compared_errors", 0),
+                           "errors_compared_on_a_repeated_read": stats.get("compared_errors_repeat", 0)},
         "worker_processes": min(n_jobs(), len(tasks)),
         "value_kinds": [k.id for k in V.KINDS],
         "input_distribution": {"profiles": profiles, "features": features, "counters": stats,
